@@ -108,6 +108,18 @@ func VerifC07ReadOnly() {
 		"LogRecord.Attributes.PutInt":       func() { lr.Attributes().PutInt("k", 0) },
 		"LogRecord.Attribute.Value.SetInt":  func() { v, _ := lr.Attributes().Get("k"); v.SetInt(0) },
 		"LogRecord.MoveTo":                  func() { lr.MoveTo(other.ResourceLogs().At(0).ScopeLogs().At(0).LogRecords().At(0)) },
+		// the FromRaw family, with the inputs that take their early-return branches
+		"LogRecord.Body.FromRaw-nil":              func() { _ = lr.Body().FromRaw(nil) },
+		"LogRecord.Body.FromRaw-string":           func() { _ = lr.Body().FromRaw("changed") },
+		"LogRecord.Attributes.FromRaw-empty":      func() { _ = lr.Attributes().FromRaw(map[string]any{}) },
+		"LogRecord.Attributes.FromRaw-nil":        func() { _ = lr.Attributes().FromRaw(nil) },
+		"LogRecord.Attributes.FromRaw-non-empty":  func() { _ = lr.Attributes().FromRaw(map[string]any{"z": 1}) },
+		"LogRecord.Attribute.Slice.FromRaw-empty": func() { v, _ := lr.Attributes().Get("list"); _ = v.Slice().FromRaw(nil) },
+		"LogRecord.Attribute.Value.FromRaw-nil":   func() { v, _ := lr.Attributes().Get("k"); _ = v.FromRaw(nil) },
+		"LogRecord.Attribute.Map.Clear":           func() { v, _ := lr.Attributes().Get("obj"); v.Map().Clear() },
+		"LogRecord.Attribute.Map.EnsureCapacity":  func() { v, _ := lr.Attributes().Get("obj"); v.Map().EnsureCapacity(8) },
+		"LogRecord.Attribute.Slice.EnsureCapacity": func() { v, _ := lr.Attributes().Get("list"); v.Slice().EnsureCapacity(8) },
+		"LogRecord.Attribute.Slice.AppendEmpty":   func() { v, _ := lr.Attributes().Get("list"); v.Slice().AppendEmpty() },
 	}
 	names := make([]string, 0, len(muts))
 	for n := range muts {
